@@ -40,6 +40,15 @@ def load(prop):
             if r.get("check") == prop:
                 out.append({"kind": "kill", "name": "seeded:" + meta["id"], "patch": os.path.join(os.path.dirname(p), "patch.diff"),
                             "expect": r.get("expect") or [""], "note": meta.get("summary")})
+    # behaviour-preserving refactorings written by independent sub-agents (neutral/<group>/nK.diff): each must stay silent for the
+    # properties of its group; the ones that still alarm are listed with the reason in neutral/INDEX.json and are not part of the corpus
+    try:
+        idx = json.load(open(os.path.join(VERIF, "neutral", "INDEX.json")))
+    except OSError:
+        idx = {}
+    for key, e in sorted(idx.items()):
+        if e.get("status") == "silent" and prop in e.get("props", []):
+            out.append({"kind": "neutral", "name": "neutral:" + key, "patch": os.path.join(VERIF, "neutral", key + ".diff"), "note": "independent behaviour-preserving refactoring"})
     return out
 
 
